@@ -258,6 +258,29 @@ func byteEqConds(e *Engine, o Outcome) map[string]int64 {
 		if c.Op != "==" {
 			continue
 		}
+		// an array of bytes compared with a constant array: element-wise
+		if aa, okA := c.A.(*Agg); okA {
+			if ab, okB := c.B.(*Agg); okB && len(aa.Elems) == len(ab.Elems) {
+				for i := range aa.Elems {
+					x, ok1 := aa.Elems[i].(*Form)
+					y, ok2 := ab.Elems[i].(*Form)
+					if !ok1 || !ok2 {
+						continue
+					}
+					if _, isC := x.Const(); isC {
+						x, y = y, x
+					}
+					an, isA := x.SingleAtom()
+					cv, isC := y.ConstInt()
+					if isA && isC {
+						if off, ok := byteOffOf(e, an); ok {
+							m[off.Key()] = cv
+						}
+					}
+				}
+			}
+			continue
+		}
 		a, ok1 := c.A.(*Form)
 		b, ok2 := c.B.(*Form)
 		if !ok1 || !ok2 {
